@@ -27,5 +27,9 @@ REGISTRY = {
                     "length 4 (6 thorough) plus all keyword spellings; every identifier is replayed through the real conversion function (one implementation call per spec behaviour) and through the CLI in "
                     "six declaration positions and module path segments with -nc off and on; C09_Trace judges rendering, annotation-iff-differs, recoverability and the name-free skeleton.",
             "ref": "DESIGN.md section 7 C09", "note": BASE_NOTE + " Result names are judged for rendering only (a result has no Python name to recover).", "technique": TECH},
+    "C19": {"text": "spec/ApiTypes.tla gives the intended algebra of the 14 type constructors (order-free Key for sequence-like types) and TLC checks round-trip, reflexivity, symmetry, "
+                    "eq=>hash and order-freedom on it for all terms up to depth 2 paired with their related terms (permutation, duplicated element, replaced element, other constructor, boundary twin); "
+                    "the 27.7k pairs are replayed on the real classes in-process and C19_Trace evaluates the laws on the logged results of to_dict/from_dict/==/hash (exceptions are failed laws).",
+            "ref": "DESIGN.md section 7 C19", "note": "Trusted: TLC; the builder from spec terms to real objects (harness/checks/c19.py). Bounded by the explored depth/alphabet.", "technique": TECH},
 }
 NOT_APPLICABLE = {}
